@@ -73,10 +73,9 @@ func extractSlotContent(node *html.Node) *SlotScope {
 	for c := node.FirstChild; c != nil; c = c.NextSibling {
 		if c.Type != html.ElementNode {
 			if c.Type == html.TextNode {
-				// Text nodes go to default slot unless they're only whitespace
-				if trimmedText := strings.TrimSpace(c.Data); trimmedText != "" {
-					defaultSlotContent = append(defaultSlotContent, helpers.CloneNode(c))
-				}
+				// Text nodes go to default slot. Whitespace (HTML's: a non-breaking space is
+				// content) counts between other content only, see below.
+				defaultSlotContent = append(defaultSlotContent, helpers.CloneNode(c))
 			}
 			continue
 		}
@@ -128,6 +127,18 @@ func extractSlotContent(node *html.Node) *SlotScope {
 			// Non-template element goes to default slot
 			defaultSlotContent = append(defaultSlotContent, helpers.DeepCloneNode(c))
 		}
+	}
+
+	// Whitespace around the content is layout of the source, whitespace inside it separates
+	// what it stands between (<b>a</b> <i>b</i>)
+	isBlank := func(n *html.Node) bool {
+		return n.Type == html.TextNode && strings.Trim(n.Data, " \t\n\r\f") == ""
+	}
+	for len(defaultSlotContent) > 0 && isBlank(defaultSlotContent[0]) {
+		defaultSlotContent = defaultSlotContent[1:]
+	}
+	for len(defaultSlotContent) > 0 && isBlank(defaultSlotContent[len(defaultSlotContent)-1]) {
+		defaultSlotContent = defaultSlotContent[:len(defaultSlotContent)-1]
 	}
 
 	// Add default slot content if any
